@@ -153,6 +153,7 @@ func receiver(wd *world, n int, sub uint64) {
 		if simrt.Dead() {
 			break
 		}
+		simrt.Progress()
 		si := r.Intn(nSess)
 		s := sessions[si]
 		fcnts[si]++
@@ -285,6 +286,7 @@ func worker(wd *world, id int, sub uint64, extra int) {
 }
 
 func localOp(wd *world, id int, r *sim.Rand, bw *bandWatch) {
+	simrt.Progress()
 	switch r.Intn(4) {
 	case 0:
 		cryptoOnArena(wd, id, r)
@@ -303,6 +305,7 @@ func frameSig(phy *lorawan.PHYPayload) string { return sim.DeepSig(phy) }
 // decrypt - on the frame decoded from reused memory and on the private
 // reference; every observable must agree (I2, I3, I5) and equal the truth.
 func processFrame(j *job, r *sim.Rand) {
+	simrt.Progress()
 	simrt.Count(cWork)
 	if genGet() != j.gen {
 		simrt.Count(cStaleBefore)
